@@ -15,9 +15,9 @@ class C35(Prop):
                dict(pkg="internal/protocols/httpp", test="TestVerifC35Filter"),
                dict(pkg="internal/api", test="TestVerifC35Param"),
                dict(pkg="internal/core", test="TestVerifC35Core", timeout=1500)]
-    n_quick = 300          # per driver (filter/param use half; the core driver scales its own rounds from it)
+    n_quick = 240          # per driver (filter/param use half; the core driver scales its own rounds from it)
     n_thorough = 4000
-    shard = 300
+    shard = 800
     ready = False
     rule = ("per driver VERIF_N cases from one seed. Paths: valid shapes, the boundary ('', '/', '//', '*', suffix alone, suffix "
             "minus/plus one byte), hostile names (NUL, LF, non-UTF-8, '..', '%2f', backslash), long (up to 1.4 kB in Coq "
